@@ -20,6 +20,7 @@ from harness import coqemit as E
 from harness import fieldgen as G
 from harness import structgen as S
 from harness import gen as GEN
+from harness import c03ops as X
 
 ADDR = re.compile(r"0x[0-9a-fA-F]+")
 KIND_ID = {"list": 0, "deque": 1, "dict": 2}
@@ -88,35 +89,96 @@ def gen_index(rnd, n, valid):
     return rnd.choice([n, n + 2, -n - 1]) if not valid else 0
 
 
+def _failing_keys(n):
+    """Keys for list.sort that make the sort raise TypeError after it has already moved elements."""
+    keys = [("int", n - i) for i in range(n)]
+    if n >= 2:
+        keys[max(1, (2 * n) // 3)] = ("str", "a")
+    return keys
+
+
+def gen_iterable(rnd, items, valid):
+    """The same items as a list / tuple / one-shot iterator / iterator that fails after yielding them."""
+    r = rnd.random()
+    if r < 0.55:
+        return ("list", items)
+    if r < 0.67:
+        return ("tuple", items)
+    if r < 0.85:
+        return ["x:iter", items]
+    return ["x:failiter", items]
+
+
+def gen_slice(rnd, n):
+    lo = rnd.choice([None, 0, 1, max(0, n - 1), n, n + 2, -1])
+    hi = rnd.choice([None, 0, 1, 2, n, n + 3, -1])
+    step = rnd.choice([None, None, None, 2, -1])
+    return ["x:slice", lo, hi, step]
+
+
 def gen_args(rnd, kind, method, f, content, ctx):
-    """Arguments (reified) for base-type mutator `method` applied to a value declared f whose current
-    content is `content` (reified items / pairs).  Both valid and invalid ones."""
+    """Arguments for base-type mutator `method` applied to a value declared f whose current content is
+    `content` (reified items / pairs).  Both valid and invalid ones.  Returns a list of positional arguments
+    (reified values or the special forms of harness/c03ops.py), or a pair (args, kwargs)."""
     valid = rnd.random() < 0.6
     n = len(content)
     I = lambda v=valid: ("int", gen_index(rnd, n, v))
     if kind in ("list", "deque"):
         item = lambda pos=None: gen_item(rnd, f, valid, ctx, pos)
-        items = lambda: ("list", [gen_item(rnd, f, valid or rnd.random() < 0.5, ctx) for _ in range(rnd.randint(0, 3))])
+        item_list = lambda: [gen_item(rnd, f, valid or rnd.random() < 0.5, ctx) for _ in range(rnd.randint(0, 3))]
+        items = lambda: ("list", item_list())
         if method == "__delitem__":
-            if kind == "list" and rnd.random() < 0.2:
-                return None  # slice: not expressible as reified value; handled by caller as index
+            if rnd.random() < (0.3 if kind == "list" else 0.05):
+                return [gen_slice(rnd, n)]
             return [I()]
         if method in ("__iadd__", "extend", "extendleft"):
             if not valid and rnd.random() < 0.15:
                 return [("int", 5)]
-            return [items()]
+            return [gen_iterable(rnd, item_list(), valid)]
         if method == "__imul__":
-            return [("int", rnd.choice([0, 1, 2, 2, 3]))] if valid or rnd.random() < 0.7 else [("str", "x")]
+            return [("int", rnd.choice([0, 1, 2, 2, 3, -1]))] if valid or rnd.random() < 0.7 else [("str", "x")]
         if method == "__setitem__":
+            r = rnd.random()
+            if n and r < 0.15:
+                # an element that Python's == cannot tell from the one it replaces, of another type
+                i = rnd.randrange(n)
+                y = X.lookalike(rnd, content[i])
+                if y is not None:
+                    return [("int", i), y]
+            if r < (0.35 if kind == "list" else 0.18):
+                sl = gen_slice(rnd, n)
+                if rnd.random() < 0.3 and n:
+                    # same length replacement (the only form an extended slice accepts)
+                    sl = ["x:slice", None, None, rnd.choice([None, 1, 2])]
+                    cnt = len(range(*slice(sl[1], sl[2], sl[3]).indices(n)))
+                    its = [gen_item(rnd, f, valid or rnd.random() < 0.6, ctx, None) for _ in range(cnt)]
+                    return [sl, gen_iterable(rnd, its, valid)]
+                return [sl, gen_iterable(rnd, item_list(), valid)]
             i = I()
             return [i, item(i[1] if i[1] >= 0 else None)]
         if method in ("append", "appendleft"):
             return [item(n if method == "append" else 0)]
-        if method in ("clear", "popleft", "reverse", "sort"):
+        if method in ("clear", "popleft", "reverse"):
             return []
+        if method == "sort":
+            r = rnd.random()
+            if r < 0.35:
+                return []
+            if r < 0.5:
+                return ([], {"reverse": ("bool", True)})
+            if r < 0.75:
+                keys = [("int", k) for k in rnd.sample(range(n + 3), n)]
+                kw = {"key": ["x:keyseq", keys]}
+                if rnd.random() < 0.4:
+                    kw["reverse"] = ("bool", rnd.random() < 0.7)
+                return ([], kw)
+            kw = {"key": ["x:keyseq", _failing_keys(max(n, 2))]}
+            if rnd.random() < 0.3:
+                kw["reverse"] = ("bool", True)
+            return ([], kw)
         if method == "insert":
-            i = ("int", rnd.randint(0, n))
-            return [i, item(i[1])]
+            i = ("int", rnd.choice([rnd.randint(0, n), rnd.randint(0, n), -1, n + 3, -n - 2]))
+            return [i, item(i[1] if 0 <= i[1] <= n else None)]
         if method == "pop":
             if kind == "deque" or rnd.random() < 0.5:
                 return []
@@ -126,19 +188,53 @@ def gen_args(rnd, kind, method, f, content, ctx):
                 return [rnd.choice(content)]
             return [item()]
         if method == "rotate":
-            return [("int", rnd.choice([0, 1, 1, 2, -1]))]
+            return [("int", rnd.choice([0, 1, 1, 2, -1]))] if rnd.random() < 0.85 else []
     else:
         key = lambda: gen_key(rnd, f, valid, ctx, content)
         val = lambda: gen_item(rnd, f, valid, ctx)
-        pairs = lambda: G.mk_dict([(gen_key(rnd, f, valid or rnd.random() < 0.5, ctx, content),
-                                    gen_item(rnd, f, valid or rnd.random() < 0.5, ctx)) for _ in range(rnd.randint(0, 2))])
+        pair_list = lambda: G.mk_dict([(gen_key(rnd, f, valid or rnd.random() < 0.5, ctx, content),
+                                        gen_item(rnd, f, valid or rnd.random() < 0.5, ctx))
+                                       for _ in range(rnd.randint(0, 3))])[1]
+        pairs = lambda: ("dict", pair_list())
+        as_tuples = lambda ps: [("tuple", [k, v]) for k, v in ps]
         if method in ("__delitem__",):
             return [key()]
         if method in ("__ior__", "update"):
-            if not valid and rnd.random() < 0.15:
+            if not valid and rnd.random() < 0.12:
                 return [("int", 5)]
-            return [pairs()]
+            r = rnd.random()
+            if content and r < 0.15:
+                # an existing entry re-assigned with an equal value (or equal key) of another type
+                k, v = rnd.choice(content)
+                y = X.lookalike(rnd, v)
+                if y is not None:
+                    return [("dict", [(k, y)])]
+                y = X.lookalike(rnd, k)
+                if y is not None and G.is_hashable(y):
+                    return [("dict", [(y, v)])]
+            ps = pair_list()
+            if r < 0.55:
+                return [("dict", ps)]
+            if r < 0.68:
+                return [("list", as_tuples(ps))]
+            if r < 0.8:
+                return [["x:iter" if rnd.random() < 0.5 else "x:failiter", as_tuples(ps)]]
+            if method == "update":
+                kw = {k[1]: v for k, v in ps if k[0] == "str" and k[1].isidentifier()}
+                pos = [(k, v) for k, v in ps if not (k[0] == "str" and k[1].isidentifier())]
+                if not kw:
+                    kw = {"kw1": val()}
+                return ([("dict", pos)] if (pos or rnd.random() < 0.4) else [], kw)
+            return [("dict", ps)]
         if method == "__setitem__":
+            if content and rnd.random() < 0.15:
+                k, v = rnd.choice(content)
+                y = X.lookalike(rnd, v)
+                if y is not None:
+                    return [k, y]
+                y = X.lookalike(rnd, k)
+                if y is not None and G.is_hashable(y):
+                    return [y, v]
             return [key(), val()]
         if method in ("clear", "popitem"):
             return []
@@ -150,6 +246,15 @@ def gen_args(rnd, kind, method, f, content, ctx):
     cands = [[], [("int", 0)], [("int", 1)], [("list", [("int", 5)])], [("int", 0), ("int", 5)],
              [("dict", [(("str", "k"), ("int", 9))])], [("str", "a")], [("str", "a"), ("int", 1)]]
     return rnd.choice(cands)
+
+
+def split_args(ga):
+    """gen_args result -> (args, kwargs)."""
+    if ga is None:
+        return [("int", 0)], {}
+    if isinstance(ga, tuple):
+        return list(ga[0]), dict(ga[1])
+    return list(ga), {}
 
 
 def scrub(v):
@@ -171,7 +276,9 @@ def scrub_op(op):
     if "value" in op:
         op["value"] = scrub(op["value"])
     if "args" in op:
-        op["args"] = [scrub(a) for a in op["args"]]
+        op["args"] = [X.map_values(a, scrub) for a in op["args"]]
+    if op.get("kwargs"):
+        op["kwargs"] = {k: X.map_values(a, scrub) for k, a in op["kwargs"].items()}
     return op
 
 
@@ -270,22 +377,22 @@ def hook_fails(x):
 
 # ------------------------------------------------------------------ performing operations
 
-def base_result(handle, kind, method, args_r, ctx):
+def base_result(handle, kind, method, op, ctx):
     """What the base type's method does to a plain copy of the handle's content (CPython is the oracle):
     ("ok", reified new container) | ("raise", class name).  A call the wrapper's own signature rejects is a
-    TypeError before anything runs."""
+    TypeError before anything runs.  `op` carries args / kwargs (realised afresh: iterators are single use)."""
     plain = BASE[kind](handle)
-    args = [G.unreify(a, ctx.classes) for a in args_r]
+    args, kwargs = X.realize_call(op, ctx.classes)
     own = type(handle).__dict__.get(method)
     if own is not None:
         try:
-            inspect.signature(own).bind(handle, *args)
+            inspect.signature(own).bind(handle, *args, **kwargs)
         except TypeError:
             return ("raise", "TypeError")
         except ValueError:
             pass
     try:
-        getattr(plain, method)(*args)
+        getattr(plain, method)(*args, **kwargs)
     except Exception as ex:  # noqa
         return ("raise", E.exn_name(ex))
     return ("ok", E.reify(plain, S.struct_attrs))
@@ -310,18 +417,24 @@ def perform(x, op, ctx, handles):
                 h = getattr(x, name)
                 if handles is not None:
                     handles[name] = h
+            if op.get("aug"):
+                h = getattr(x, name)          # `x.f += v` always reads the field afresh
             extra["live"] = h is x.__dict__.get(name)
-            extra["base"] = base_result(h, op["kind"], op["method"], op["args"], ctx)
-            args = [G.unreify(a, ctx.classes) for a in op["args"]]
+            extra["base"] = base_result(h, op["kind"], op["method"], op, ctx)
+            args, kwargs = X.realize_call(op, ctx.classes)
             meth = getattr(h, op["method"])
-            call = lambda: meth(*args)
+            if op.get("aug"):
+                # the statement `x.f += v` / `x.f *= n` / `x.f |= d`: in-place dunder, then the result is assigned
+                call = lambda: setattr(x, name, meth(*args, **kwargs))
+            else:
+                call = lambda: meth(*args, **kwargs)
         elif k == "nested":
             outer = getattr(x, op["name"])
             inner = outer[G.unreify(op["sel"], ctx.classes)]
             extra["inner_type"] = type(inner).__name__
-            args = [G.unreify(a, ctx.classes) for a in op["args"]]
+            args, kwargs = X.realize_call(op, ctx.classes)
             meth = getattr(inner, op["method"])
-            call = lambda: meth(*args)
+            call = lambda: meth(*args, **kwargs)
         else:
             raise ValueError(op)
     except Exception as ex:  # noqa  the operation cannot be set up (e.g. field unset): not an operation
@@ -339,7 +452,10 @@ def op_src(op):
         return "x.%s = %s" % (op["name"], G.py_src(op["value"]))
     if k == "del":
         return "del x[%r]" % op["name"]
-    args = ", ".join(G.py_src(a) for a in op["args"])
+    args = X.call_args_src(op)
+    if k == "call" and op.get("aug"):
+        sym = {"__iadd__": "+=", "__imul__": "*=", "__ior__": "|="}.get(op["method"], op["method"])
+        return "x.%s %s %s" % (op["name"], sym, args)
     if k == "call":
         return "x.%s.%s(%s)" % (op["name"], op["method"], args)
     return "x.%s[%s].%s(%s)" % (op["name"], G.py_src(op["sel"]), op["method"], args)
@@ -431,21 +547,30 @@ def gen_op(rnd, x, fields, ctx, tables, allow_nested=True, safe_only=False):
                 i = rnd.randrange(len(content))
                 sel, icontent = ("int", i), content[i]
             method = rnd.choice(tables[ikind])[0]
-            args = gen_args(rnd, ikind, method, g, icontent[1] if len(icontent) > 1 else [], ctx)
-            if args is None:
-                args = [("int", 0)]
-            return {"op": "nested", "name": fd["name"], "okind": kind, "ikind": ikind, "sel": sel,
-                    "method": method, "args": args}
+            args, kwargs = split_args(gen_args(rnd, ikind, method, g, icontent[1] if len(icontent) > 1 else [], ctx))
+            op = {"op": "nested", "name": fd["name"], "okind": kind, "ikind": ikind, "sel": sel,
+                  "method": method, "args": args}
+            if kwargs:
+                op["kwargs"] = kwargs
+            return op
         method = rnd.choice(tables[kind])[0]
-        args = gen_args(rnd, kind, method, f, content, ctx)
-        if args is None:
-            args = [("int", 0)]
-        return {"op": "call", "name": fd["name"], "kind": kind, "method": method, "args": args}
+        args, kwargs = split_args(gen_args(rnd, kind, method, f, content, ctx))
+        op = {"op": "call", "name": fd["name"], "kind": kind, "method": method, "args": args}
+        if kwargs:
+            op["kwargs"] = kwargs
+        if method in ("__iadd__", "__imul__", "__ior__") and rnd.random() < 0.5:
+            op["aug"] = True          # the statement form: x.f += v (dunder, then assignment of its result)
+        return op
     if r < 0.90 or not fields:
         if fields and rnd.random() < 0.93:
             fd = rnd.choice(fields)
             f = fd["field"]
             q = rnd.random()
+            if q < 0.12 and fd["name"] in state:
+                # a value Python's == cannot tell from the stored one, but of another type somewhere inside
+                y = X.lookalike(rnd, E.reify(state[fd["name"]], S.struct_attrs))
+                if y is not None:
+                    return {"op": "set", "name": fd["name"], "value": y}
             try:
                 if q < 0.5:
                     v = G.gen_valid(rnd, f, ctx.instances)
@@ -733,7 +858,58 @@ DIRECTED_ARGS = {
              [("dict", [(("int", 1), ("int", 2))])], [("dict", [(("str", "n"), ("int", 2)), (("str", "o"), ("int", 2))])],
              [("str", "n"), ("int", 5)], [("str", "n")], [("str", "k"), ("int", 4)]],
 }
-DIRECTED_ARGS["deque"] = DIRECTED_ARGS["list"]
+# calls with slices, keyword arguments, one-shot / failing iterators, key functions (dicts: {"args", "kwargs"})
+DIRECTED_ARGS["deque"] = DIRECTED_ARGS["list"] + [
+    [["x:failiter", [("int", 9), ("int", 8)]]], [["x:iter", [("str", "x")]]], [("tuple", [("str", "x")])],
+    [("int", -1), ("str", "x")], [("int", -1)]]
+DIRECTED_ARGS["list"] = DIRECTED_ARGS["list"] + [
+    [["x:slice", 0, 1, None], ("list", [("str", "x")])], [["x:slice", 0, 1, None], ("list", [])],
+    [["x:slice", 1, None, None], ("list", [])], [["x:slice", None, None, None], ("list", [("int", 9), ("int", 9), ("int", 9)])],
+    [["x:slice", 5, None, None], ("list", [("int", 9), ("int", 8)])], [["x:slice", None, None, 2], ("list", [("str", "x"), ("str", "y")])],
+    [["x:slice", None, None, 2], ("list", [("str", "x")])],
+    [["x:slice", 0, 2, None]], [["x:slice", None, None, 2]], [["x:slice", 1, None, None]], [["x:slice", None, None, None]],
+    [["x:slice", 0, 1, None], ["x:failiter", [("int", 9)]]], [["x:slice", 0, 1, None], ["x:iter", [("str", "x")]]],
+    [["x:failiter", [("int", 9), ("int", 8)]]], [["x:iter", [("str", "x")]]], [("tuple", [("str", "x")])],
+    [("int", -1), ("str", "x")], [("int", -1)],
+    {"args": [], "kwargs": {"key": ["x:keyseq", [("int", 2), ("int", 1), ("str", "a"), ("int", 0)]]}},
+    {"args": [], "kwargs": {"key": ["x:keyseq", [("int", 2), ("int", 1), ("str", "a"), ("int", 0)]], "reverse": ("bool", True)}},
+    {"args": [], "kwargs": {"key": ["x:keyseq", [("int", 3), ("int", 2), ("int", 1)]]}},
+    {"args": [], "kwargs": {"reverse": ("bool", True)}}]
+DIRECTED_ARGS["dict"] = DIRECTED_ARGS["dict"] + [
+    {"args": [], "kwargs": {"n": ("int", 2), "o": ("int", 3)}}, {"args": [], "kwargs": {"k": ("str", "x")}},
+    {"args": [("dict", [(("str", "n"), ("int", 2))])], "kwargs": {"o": ("str", "x")}},
+    [("list", [("tuple", [("str", "n"), ("int", 2)]), ("tuple", [("str", "o"), ("str", "x")])])],
+    [("list", [("tuple", [("str", "n"), ("int", 2)]), ("tuple", [("str", "o"), ("int", 3)])])],
+    [["x:failiter", [("tuple", [("str", "n"), ("int", 2)])]]], [["x:iter", [("tuple", [("str", "n"), ("str", "x")])]]],
+    [["x:iter", [("tuple", [("int", 3), ("int", 2)])]]],
+    [("dict", [(("str", "k"), ("flt", 1, 0))])], [("str", "k"), ("flt", 1, 0)], [("str", "k"), ("bool", True)],
+    [("dict", [(("str", "k"), ("dec", 1, 0))])]]
+
+
+def has_opaque(r):
+    """Does the reified value hold an object the reifier cannot represent (a slice / generator / function that a
+    directed call stored as an ELEMENT)?  Such calls are not part of the witness family."""
+    t = r[0]
+    if t == "other":
+        return r[1] not in ("float", "complex", "bytes", "object", "Decimal")
+    if t in ("list", "tuple", "deque"):
+        return any(has_opaque(x) for x in r[1])
+    if t == "set":
+        return any(has_opaque(x) for x in r[2])
+    if t == "dict":
+        return any(has_opaque(k) or has_opaque(v) for k, v in r[1])
+    return False
+
+
+def directed_op(kind, method, a):
+    op = {"op": "call", "name": "a", "kind": kind, "method": method}
+    if isinstance(a, dict):
+        op["args"] = list(a["args"])
+        if a.get("kwargs"):
+            op["kwargs"] = dict(a["kwargs"])
+    else:
+        op["args"] = list(a)
+    return op
 
 
 def directed_entry(kind, method, ctx, tables):
@@ -749,15 +925,22 @@ def directed_entry(kind, method, ctx, tables):
         cast = ctx.ast(cname)
         for start in starts:
             for args in DIRECTED_ARGS[kind]:
-                op = {"op": "call", "name": "a", "kind": kind, "method": method, "args": args}
-                # only calls that would leave an invalid value if they ran unvalidated
+                op = directed_op(kind, method, args)
+                # calls that would leave an invalid value if they ran unvalidated, and calls the base type's
+                # method fails on (it may fail half way: list.sort, extend/update from a failing iterator)
                 cls = ctx.classes[cname]
                 try:
                     probe = cls(a=G.unreify(start, ctx.classes))
                 except Exception:  # noqa
                     continue
-                b = base_result(probe.a, kind, method, args, ctx)
+                b = base_result(probe.a, kind, method, op, ctx)
                 if b[0] != "ok":
+                    if b[1] in ("TypeError", "ValueError") and X.needs_prelude([op]):
+                        h = run_history(None, cast, ctx, tables, 1, "reread", ops=[op], kwargs=[("a", start)])
+                        if h is not None and h.py_findings:
+                            return h
+                    continue
+                if has_opaque(b[1]):
                     continue
                 try:
                     cls(a=G.unreify(b[1], ctx.classes))
@@ -866,6 +1049,165 @@ def directed_extfields(rep):
     return n
 
 
+def lookalike_class():
+    I = {"t": "num", "k": "Integer", "s": "Any"}
+    F = {"t": "num", "k": "Float", "s": "Any"}
+    N = {"t": "num", "k": "Number", "s": "Any"}
+    Sx = {"t": "str"}
+    B = {"t": "bool"}
+    nosz = [None, None]
+    seq = lambda k, item: {"t": "seqeach", "k": k, "item": item, "sz": nosz, "uniq": False}
+    fields = [
+        ("i", I, ("int", 1)), ("j", I, ("int", 7)), ("f", F, ("flt", 1, 1)), ("g", F, ("flt", 5, -1)), ("n", N, ("int", 0)),
+        ("b", B, ("bool", True)), ("e", {"t": "enumlit", "values": [("int", 1), ("int", 2), ("str", "a")]}, ("int", 1)),
+        ("li", seq("list", I), ("list", [("int", 0), ("int", 1), ("int", 5)])),
+        ("lf", seq("list", F), ("list", [("flt", 1, 0), ("flt", 5, -1)])),
+        ("ln", seq("list", N), ("list", [("int", 1), ("flt", 5, -1)])),
+        ("lb", seq("list", B), ("list", [("bool", True), ("bool", False)])),
+        ("dq", seq("deque", I), ("deque", [("int", 1), ("int", 2)])),
+        ("lp", {"t": "seqpos", "k": "list", "items": [I, Sx], "sz": nosz, "uniq": False, "additional": None},
+         ("list", [("int", 1), ("str", "a")])),
+        ("lu", {"t": "seqeach", "k": "list", "item": I, "sz": [1, 3], "uniq": True}, ("list", [("int", 1), ("int", 2)])),
+        ("m", {"t": "mapkv", "kf": Sx, "vf": I, "sz": nosz}, ("dict", [(("str", "a"), ("int", 1)), (("str", "b"), ("int", 2))])),
+        ("mk", {"t": "mapkv", "kf": I, "vf": Sx, "sz": nosz}, ("dict", [(("int", 1), ("str", "one")), (("int", 2), ("str", "two"))])),
+        ("mb", {"t": "mapkv", "kf": Sx, "vf": B, "sz": [1, 2]}, ("dict", [(("str", "k"), ("bool", True))])),
+        ("s", {"t": "set", "imm": False, "item": I, "sz": nosz}, ("set", False, [("int", 1), ("int", 2)])),
+        ("t", {"t": "tuple", "items": [I, Sx], "uniq": False}, ("tuple", [("int", 1), ("str", "a")])),
+        ("an", {"t": "anyof", "fs": [I, Sx]}, ("int", 1)),
+        ("al", {"t": "allof", "fs": [I, {"t": "num", "k": "Number", "s": "Any", "max": ("int", 10)}]}, ("int", 1)),
+        ("la", seq("list", {"t": "anyof", "fs": [I, Sx]}), ("list", [("int", 1), ("str", "x")])),
+    ]
+    cast = {"name": "WL", "fields": [{"name": n, "field": f} for n, f, _ in fields], "required": [], "additional": False}
+    return cast, [(n, v) for n, _, v in fields]
+
+
+def directed_lookalike(ctx, tables, rep):
+    """Every way of replacing ONE numeric/bool leaf of a stored value by a value of another type that Python's
+    == cannot tell from it (1 / 1.0 / Decimal(1) / True, dict keys included), through every entry point that can
+    deliver it: attribute assignment, item assignment, slice assignment, update (positional, keyword, pairs), |=,
+    +=.  Enumerated, not sampled.  What each call must do is decided by the model (correspondence) and by the
+    validity of the observed state (Coq); nothing here assumes which of them are rejected."""
+    cast, start = lookalike_class()
+    if "WL" not in ctx.classes and not add_class(ctx, cast):
+        return []
+    cast = ctx.ast("WL")
+    hs = []
+
+    def one(op):
+        h = run_history(None, cast, ctx, tables, 1, "reread", ops=[op], kwargs=start)
+        if h is not None and h.steps:
+            rep.count("directed:lookalike", 0, (op["name"], op["op"], op.get("method"), bool(op.get("aug")),
+                                                 h.steps[0]["out"][0]))
+            hs.append(h)
+
+    for name, v in start:
+        f = field_cast(cast["fields"], name)
+        kind = kind_of(f)
+        for y in X.lookalikes(v, 40):
+            one({"op": "set", "name": name, "value": y})
+        if kind in ("list", "deque"):
+            for i, x in enumerate(v[1]):
+                for y in X.lookalikes(x, 8):
+                    one({"op": "call", "name": name, "kind": kind, "method": "__setitem__", "args": [("int", i), y]})
+                    one({"op": "call", "name": name, "kind": kind, "method": "__setitem__", "args": [("int", i - len(v[1])), y]})
+                    if kind == "list":
+                        one({"op": "call", "name": name, "kind": kind, "method": "__setitem__",
+                             "args": [["x:slice", i, i + 1, None], ("list", [y])]})
+                        one({"op": "call", "name": name, "kind": kind, "method": "__setitem__",
+                             "args": [["x:slice", i, i + 1, None], ["x:iter", [y]]]})
+            for w in X.lookalikes(("list", list(v[1])), 8):
+                if kind == "list":
+                    one({"op": "call", "name": name, "kind": kind, "method": "__setitem__",
+                         "args": [["x:slice", None, None, None], w]})
+        if kind == "dict":
+            for k, x in v[1]:
+                alts = [(k, y) for y in X.lookalikes(x, 8)] + [(y, x) for y in X.lookalikes(k, 8) if G.is_hashable(y)]
+                for k2, x2 in alts:
+                    d = ("dict", [(k2, x2)])
+                    one({"op": "call", "name": name, "kind": "dict", "method": "__setitem__", "args": [k2, x2]})
+                    one({"op": "call", "name": name, "kind": "dict", "method": "update", "args": [d]})
+                    one({"op": "call", "name": name, "kind": "dict", "method": "update", "args": [("list", [("tuple", [k2, x2])])]})
+                    one({"op": "call", "name": name, "kind": "dict", "method": "__ior__", "args": [d]})
+                    one({"op": "call", "name": name, "kind": "dict", "method": "__ior__", "args": [d], "aug": True})
+                    if k2[0] == "str" and k2[1].isidentifier():
+                        one({"op": "call", "name": name, "kind": "dict", "method": "update", "args": [], "kwargs": {k2[1]: x2}})
+            for w in X.lookalikes(v, 8):
+                one({"op": "call", "name": name, "kind": "dict", "method": "update", "args": [w]})
+    return hs
+
+
+def nonatomic_casts():
+    I = {"t": "num", "k": "Integer", "s": "Any"}
+    Sx = {"t": "str"}
+    nosz = [None, None]
+    mixed = [("int", 1), ("int", 2), ("int", 0), ("str", "a"), ("int", 7), ("int", 5)]
+    ints = [("int", 4), ("int", 3), ("int", 2), ("int", 1), ("int", 9), ("int", 0)]
+    out = []
+    for kind in ("list", "deque"):
+        out.append((kind, {"t": "seqany", "k": kind, "sz": nosz, "uniq": False}, (kind, mixed)))
+        out.append((kind, {"t": "seqeach", "k": kind, "item": {"t": "anyof", "fs": [I, Sx]}, "sz": nosz, "uniq": False}, (kind, mixed)))
+        out.append((kind, {"t": "seqeach", "k": kind, "item": I, "sz": nosz, "uniq": False}, (kind, ints)))
+        out.append((kind, {"t": "seqeach", "k": kind, "item": I, "sz": [1, 8], "uniq": True}, (kind, ints)))
+        out.append((kind, {"t": "seqpos", "k": kind, "items": [I], "sz": nosz, "uniq": False, "additional": None}, (kind, mixed)))
+    pairs = [(("str", "k"), ("int", 1)), (("str", "j"), ("int", 2))]
+    out.append(("dict", {"t": "mapkv", "kf": Sx, "vf": I, "sz": nosz}, ("dict", pairs)))
+    out.append(("dict", {"t": "mapany", "sz": nosz}, ("dict", pairs)))
+    out.append(("dict", {"t": "mapkv", "kf": Sx, "vf": I, "sz": [1, 5]}, ("dict", pairs)))
+    return out
+
+
+def directed_nonatomic(ctx, tables, rep):
+    """Calls on which the BASE type's method itself is not failure-atomic in CPython: list.sort when a comparison
+    raises after elements were moved (content the declaration admits but Python cannot order, or a key function
+    yielding such keys), extend / += / extendleft / update / |= fed by an iterator that raises after yielding valid
+    items.  A wrapper that runs them on its live value (instead of a copy) leaves the instance changed."""
+    hs = []
+    for ci, (kind, f, start) in enumerate(nonatomic_casts()):
+        cname = "WA_%s_%d" % (kind, ci)
+        if cname not in ctx.classes and not add_class(
+                ctx, {"name": cname, "fields": [{"name": "a", "field": f}], "required": ["a"], "additional": False}):
+            continue
+        cast = ctx.ast(cname)
+        ops = []
+        n = len(start[1])
+        if kind in ("list", "deque"):
+            good = [("int", 11), ("int", 12)]
+            for m in ("extend", "__iadd__") + (("extendleft",) if kind == "deque" else ()):
+                ops.append({"op": "call", "name": "a", "kind": kind, "method": m, "args": [["x:failiter", good]]})
+                ops.append({"op": "call", "name": "a", "kind": kind, "method": m, "args": [["x:iter", good]]})
+            ops.append({"op": "call", "name": "a", "kind": kind, "method": "__iadd__", "args": [["x:failiter", good]], "aug": True})
+        if kind == "list":
+            ops.append({"op": "call", "name": "a", "kind": kind, "method": "sort", "args": []})
+            ops.append({"op": "call", "name": "a", "kind": kind, "method": "sort", "args": [], "kwargs": {"reverse": ("bool", True)}})
+            for keys in (_failing_keys(n), [("int", 1), ("int", 2), ("int", 0), ("str", "a"), ("int", 7), ("int", 5)]):
+                ops.append({"op": "call", "name": "a", "kind": kind, "method": "sort", "args": [], "kwargs": {"key": ["x:keyseq", keys]}})
+                ops.append({"op": "call", "name": "a", "kind": kind, "method": "sort", "args": [],
+                            "kwargs": {"key": ["x:keyseq", keys], "reverse": ("bool", True)}})
+            ops.append({"op": "call", "name": "a", "kind": kind, "method": "__setitem__",
+                        "args": [["x:slice", 1, 3, None], ["x:failiter", good]]})
+        if kind == "dict":
+            good = [("tuple", [("str", "n"), ("int", 3)]), ("tuple", [("str", "o"), ("int", 4)])]
+            for m in ("update", "__ior__"):
+                ops.append({"op": "call", "name": "a", "kind": kind, "method": m, "args": [["x:failiter", good]]})
+                ops.append({"op": "call", "name": "a", "kind": kind, "method": m, "args": [["x:iter", good]]})
+            ops.append({"op": "call", "name": "a", "kind": kind, "method": "update",
+                        "args": [["x:failiter", good]], "kwargs": {"p": ("int", 5)}})
+            ops.append({"op": "call", "name": "a", "kind": kind, "method": "__ior__", "args": [["x:failiter", good]], "aug": True})
+        for op in ops:
+            h = run_history(None, cast, ctx, tables, 1, "reread", ops=[op], kwargs=[("a", start)])
+            if h is not None and h.steps:
+                rep.count("directed:nonatomic-base", 0, (ci, op["method"], X.call_args_src(op)[:20], h.steps[0]["out"][0]))
+                hs.append(h)
+        # the same after a failed and a successful operation (history), re-using the handle obtained first
+        seq = [o for o in ops if o["method"] in ("sort", "extend", "update")][:3]
+        if seq:
+            h = run_history(None, cast, ctx, tables, len(seq), "reuse", ops=seq, kwargs=[("a", start)])
+            if h is not None and h.steps:
+                rep.count("directed:nonatomic-base", 0, (ci, "reuse-history"))
+                hs.append(h)
+    return hs
+
+
 def directed_nested(ctx, tables, rep):
     """F5: typed containers nested in containers."""
     I = {"t": "num", "k": "Integer", "s": "Any"}
@@ -888,9 +1230,12 @@ def directed_nested(ctx, tables, rep):
             cls = ctx.classes[cname]
             for method, _ in tables[ikind]:
                 for args in DIRECTED_ARGS[ikind]:
-                    op = {"op": "nested", "name": "a", "okind": okind, "ikind": ikind, "sel": sel, "method": method, "args": args}
+                    op = dict(directed_op(ikind, method, args), op="nested", okind=okind, ikind=ikind, sel=sel)
+                    op.pop("kind")
                     h = run_history(None, ctx.ast(cname), ctx, tables, 1, "reread", ops=[op], kwargs=[("a", start)])
                     if h is None or not h.steps:
+                        continue
+                    if h.steps[0]["post"] is not None and any(has_opaque(v) for _, v in h.steps[0]["post"]):
                         continue
                     rep.count("directed:nested", 1, (okind, ikind, method))
                     st = h.steps[0]
@@ -908,7 +1253,7 @@ def directed_nested(ctx, tables, rep):
 
 def replay_obj(h, upto, ctx):
     ops = [s["op"] for s in h.steps[:upto + 1]]
-    lines = [G.IMPORTS, ctx_source_for(ctx, h.cast["name"]),
+    lines = [G.IMPORTS + (X.PRELUDE if X.needs_prelude(ops) else ""), ctx_source_for(ctx, h.cast["name"]),
              "x = %s(%s)" % (h.cast["name"], ", ".join("%s=%s" % (k, G.py_src(v)) for k, v in h.kwargs))]
     if h.mode == "reuse":
         lines.append("# handles obtained once and re-used: each x.<f> below refers to the object first read")
@@ -1027,6 +1372,15 @@ def run(rep, tier):
                                     "unsafe_now": ["%s.%s/%s" % u for u in unsafe_now]}
 
     all_histories = []          # (stream, History)
+    import time as _time
+    timing = rep.cov.setdefault("timing_s", {})
+    _t = [_time.time()]
+
+    def lap(name):
+        now = _time.time()
+        timing[name] = round(timing.get(name, 0) + now - _t[0], 2)
+        _t[0] = now
+    lap("proofs+tables")
 
     # ---- directed: every table entry (unsafe ones must yield a concrete failing input)
     for kind in ("list", "deque", "dict"):
@@ -1042,6 +1396,7 @@ def run(rep, tier):
                            "the generated table classifies %s.%s as %s (not validated/atomic by construction) but no "
                            "input of the witness family makes the real wrapper misbehave: the override is in a form the "
                            "translator does not recognise" % (kind, m, shape), {"kind": kind, "method": m, "shape": shape})
+    lap("directed:table-entry")
     for name, h in directed_hooks(ctx, tables):
         rep.count("directed:hooks", 1, name)
         if h is not None:
@@ -1049,6 +1404,13 @@ def run(rep, tier):
     directed_extfields(rep)
     for h in directed_nested(ctx, tables, rep):
         all_histories.append(("directed:nested", h))
+    lap("directed:hooks+ext+nested")
+    for h in directed_lookalike(ctx, tables, rep):
+        all_histories.append(("directed:lookalike", h))
+    lap("directed:lookalike")
+    for h in directed_nonatomic(ctx, tables, rep):
+        all_histories.append(("directed:nonatomic-base", h))
+    lap("directed:nonatomic-base")
 
     # ---- random histories
     made = 0
@@ -1070,10 +1432,14 @@ def run(rep, tier):
             made += 1
             all_histories.append(("history", h))
 
+    lap("random-histories")
     for stream, h in all_histories:
         for s in h.steps:
             op = s["op"]
             what = op["op"] if op["op"] in ("set", "del") else "%s:%s.%s" % (op["op"], op.get("kind", op.get("ikind")), op["method"])
+            if op["op"] in ("call", "nested"):
+                forms = sorted({a[0] for a in list(op.get("args", [])) + list((op.get("kwargs") or {}).values()) if X.is_special(a)})
+                what += "".join("+" + t[2:] for t in forms) + ("+kw" if op.get("kwargs") else "") + ("+aug" if op.get("aug") else "")
             outk = s["out"][0] if s["out"][0] == "ok" else s["out"][1]
             rep.count(stream, 1, (what, outk, s["post"] is not None))
             if stream == "history":
@@ -1095,6 +1461,7 @@ def run(rep, tier):
         except RuntimeError as ex:
             rep.broken("correspondence:mstep/coq-eval", str(ex))
     nsteps = sum(len(h.steps) for h in hs)
+    lap("coq-eval")
     if r is not None:
         st = rep.cov["streams"].setdefault("history", {"evaluations": 0})
         st["histories"] = made
